@@ -15,6 +15,7 @@ RULE = ("live runs of all ten optimizer classes (byte, float and object-array ge
         "init_population / fitness_function_args / genotype_to_phenotype_args hashed before and after; get_fittest() objects "
         "overwritten by the caller; every trace replayed through the Coq loop model incl. its history. distinct = configuration.")
 THEORIES, TRUSTED, ASSUMPTIONS = _loop.THEORIES, _loop.TRUSTED, _loop.ASSUMPTIONS
+gen = _loop.gen
 
 
 def predicate(tr, rep):
